@@ -8,7 +8,8 @@ ROOT = "/verif"
 # --shadow: run in the isolated copy made by tools/shadow.sh (leaves /repo alone)
 SHADOW = "--shadow" in sys.argv
 args = [a for a in sys.argv[1:] if a != "--shadow"]
-RUN, REPO = ("/tmp/fvshadow/verif", "/tmp/fvshadow/repo") if SHADOW else (ROOT, "/repo")
+SH = os.environ.get("FVSHADOW", "/tmp/fvshadow")
+RUN, REPO = (SH + "/verif", SH + "/repo") if SHADOW else (ROOT, "/repo")
 os.environ["FUOTA_REPO"] = REPO
 names = args or sorted(os.listdir(ROOT + "/seeded"))
 for n in names:
